@@ -1288,6 +1288,7 @@ async fn serve_session<S: tokio::io::AsyncRead + tokio::io::AsyncWrite + Unpin>(
     let mut staged: Option<Eph> = None; // the open ephemeral instance of this session
     let mut nload = 0usize;
     let mut delayed: Vec<String> = Vec::new(); // failing replies held back until later loads arrived
+    let mut late: Vec<String> = Vec::new(); // positive replies held back until the next request was answered
     let mut first = true;
     loop {
         // next message
@@ -1296,8 +1297,17 @@ async fn serve_session<S: tokio::io::AsyncRead + tokio::io::AsyncWrite + Unpin>(
                 break Some(inbuf.drain(..pos + EOM.len()).collect::<Vec<u8>>());
             }
             let mut b = [0u8; 16384];
-            match tokio::time::timeout(Duration::from_secs(30), stream.read(&mut b)).await {
+            // a positive reply that is being held back ("late-ok") goes out after the reply to the next request - or, if
+            // the client does not pipeline and no further request comes, after a moment (then it was merely slow)
+            let wait = if late.is_empty() { Duration::from_secs(30) } else { Duration::from_millis(250) };
+            match tokio::time::timeout(wait, stream.read(&mut b)).await {
                 Ok(Ok(n)) if n > 0 => inbuf.extend_from_slice(&b[..n]),
+                Err(_) if !late.is_empty() => {
+                    for r in late.drain(..) {
+                        let _ = stream.write_all(r.as_bytes()).await;
+                    }
+                    let _ = stream.flush().await;
+                }
                 _ => break None,
             }
         };
@@ -1335,6 +1345,8 @@ async fn serve_session<S: tokio::io::AsyncRead + tokio::io::AsyncWrite + Unpin>(
         // a damaged reply (C14): the router did what was asked, only its answer is garbage
         let mutated = fault.as_ref().map_or(false, |f| f.kind.starts_with("mut:"));
         ev["mutated"] = json!(mutated);
+        // a reply that is merely overtaken by the next one is no fault: the router does what was asked
+        let late_ok = fault.as_ref().map_or(false, |f| f.kind == "late-ok");
         // what the request means
         let mut reply_body = String::new();
         match kind.as_str() {
@@ -1345,7 +1357,7 @@ async fn serve_session<S: tokio::io::AsyncRead + tokio::io::AsyncWrite + Unpin>(
                     .or_else(|| req.children[0].child("ephemeral").map(|_| "<default>".to_string()))
                     .unwrap_or_else(|| "<private>".into());
                 ev["instance"] = json!(inst);
-                if fault.is_none() || mutated {
+                if fault.is_none() || mutated || late_ok {
                     staged = Some(st.lock().unwrap().eph.clone());
                 }
             }
@@ -1408,7 +1420,7 @@ async fn serve_session<S: tokio::io::AsyncRead + tokio::io::AsyncWrite + Unpin>(
                 let cc = &req.children[0];
                 let effective = cc.child("check").is_none() && cc.child("confirmed").is_none();
                 ev["effective"] = json!(effective);
-                if (fault.is_none() || mutated) && effective {
+                if (fault.is_none() || mutated || late_ok) && effective {
                     if let Some(s) = staged.clone() {
                         st.lock().unwrap().eph = s;
                     }
@@ -1503,7 +1515,19 @@ async fn serve_session<S: tokio::io::AsyncRead + tokio::io::AsyncWrite + Unpin>(
                 return;
             }
             "close-after" => vec![ok_reply],
+            // replies may overtake each other: this one is sent after the reply to the next request
+            "late-ok" if kind != "close-session" => {
+                late.push(ok_reply);
+                vec![]
+            }
             _ => vec![ok_reply],
+        };
+        let to_send: Vec<String> = if fk != "late-ok" && !late.is_empty() {
+            let mut v = to_send;
+            v.append(&mut late);
+            v
+        } else {
+            to_send
         };
         let released: Vec<String> = if fk != "delayed-error" && !delayed.is_empty() {
             // a later request arrived: answer it first, then release the held-back failure
